@@ -520,7 +520,7 @@ theorem mem_setInst {w : World} {n : String} {i : Inst} {p : String × Inst}
   · exact Or.inl h
   · exact Or.inr (List.mem_filter.mp h).1
 
-theorem inst?_mem {w : World} {n : String} {i : Inst} (h : w.inst? n = some i) : ∃ m, (m, i) ∈ w.insts := by
+theorem instLookup_mem {w : World} {n : String} {i : Inst} (h : w.inst? n = some i) : ∃ m, (m, i) ∈ w.insts := by
   unfold World.inst? at h
   cases hf : w.insts.find? (fun p => p.1 == n) with
   | none => simp [hf] at h
@@ -584,7 +584,7 @@ theorem applyInit_inv (w : World) (iname : String) (who : Ident) (method : Bytes
               have ht1 := recordSeal_tableOk hi.1 h1
               have ht2 := recordSeal_tableOk ht1 h2
               have hm : ∀ r ∈ w.sealed, r ∈ t2 := fun r hr => recordSeal_mono h2 r (recordSeal_mono h1 r hr)
-              obtain ⟨m, hmem⟩ := inst?_mem hinst
+              obtain ⟨m, hmem⟩ := instLookup_mem hinst
               have hc0 : CacheOk t2 inst.key inst.ttl inst.cache := cacheOk_mono (hi.2 _ hmem) hm
               obtain ⟨n2, c2, hs2, _⟩ := recordSeal_shape h2
               apply inv_update hi t2 ht2 hm
@@ -603,7 +603,7 @@ theorem applyCont_inv (w : World) (iname : String) (req : Req) (env : Option (By
   split
   · exact hi
   · rename_i inst hinst
-    obtain ⟨m, hmem⟩ := inst?_mem hinst
+    obtain ⟨m, hmem⟩ := instLookup_mem hinst
     have hc := hi.2 _ hmem
     obtain ⟨hk, httl, hco⟩ := exchange_cacheOk w.sealed inst hc req
     have hw1 : Inv (w.setInst iname (exchange w.sealed inst req).1) := by
@@ -636,7 +636,7 @@ theorem applySticky_inv (w : World) (op : StickyOp) (iname : String) (who : Iden
   split
   · exact hi
   · rename_i inst hinst
-    obtain ⟨m, hmem⟩ := inst?_mem hinst
+    obtain ⟨m, hmem⟩ := instLookup_mem hinst
     have hc := hi.2 _ hmem
     -- the sticky family only ever changes `sessions`
     have hclose : (unaryClose w.sealed inst who sess).1.key = inst.key ∧
